@@ -27,6 +27,15 @@ harnesses! {
         vcover!(r && b != 0.0, "accepting case reachable");
     }
 
+    /// canary (vacuity guard): a deliberately false contract - "every finite pair is accepted" - must be REFUTED
+    /// by the machinery on every run, with a model that replays natively
+    #[kani::solver(kissat)]
+    fn canary_accepts_everything() {
+        let a = any_f64!(); let b = any_f64!();
+        vassume!(a.is_finite() && b.is_finite());
+        vassert!(crate::no_overlap(a, b), "CANARY (false on purpose): no_overlap accepts every finite pair");
+    }
+
     /// Layer-2 lemma L0: valid_bits decides Definition 1.4
     #[kani::solver(kissat)]
     fn lemma_l0_valid_bits() {
